@@ -13,6 +13,9 @@ CLAIMS = {
     "C01": ("property-based testing (rapid): generated schema x configuration x edit/typing history x every cursor, each query under recover; native go-fuzz target on raw bytes in the thorough tier",
             "Generated-input search: every public query entry point is called at every byte offset of generated valid, edited, truncated and half-typed files under generated schemas; a panic is a violation, an error value is a pass. Exploration is the right level: the property quantifies over an unbounded input product and the oracle (no panic) is exact.",
             "4/C01", TRUST + " Termination is only covered by the test time limit (a hang is reported as inconclusive)."),
+    "C02": ("property-based testing (rapid): generated worlds with layout stress, every query at every character boundary, independent line/column recomputation over every emitted range",
+            "Generated-input search with an exact validity predicate: every hcl.Range reachable from every query result must name a file of the reported path, satisfy 0 <= start <= end <= len and carry the line/column that an independent recomputation (newline count + grapheme clusters) assigns to its byte offsets.",
+            "4/C02", TRUST + " Ranges inside top-level items whose parser AST is itself inconsistent (unterminated calls) are attributed upstream and not judged; cursors are placed on character boundaries only."),
 }
 
 def main():
